@@ -272,10 +272,12 @@ class NumericRange(RangeMixin, qcore.Query):
         from whoosh.fields import NUMERIC
         from whoosh.util.numeric import tiered_ranges
 
+        if self.fieldname not in ixreader.schema:
+            return qcore.NullQuery
         field = ixreader.schema[self.fieldname]
         if not isinstance(field, NUMERIC):
-            raise Exception("NumericRange: field %r is not numeric"
-                            % self.fieldname)
+            raise qcore.QueryError("NumericRange: field %r is not numeric"
+                                   % self.fieldname)
 
         start = self.start
         if start is not None:
